@@ -6,7 +6,7 @@
 (* deviations: scale factors are exact rationals instead of float64;        *)
 (* graphicsNext/graphicsLast are sets instead of slices (deletes, then      *)
 (* transmissions, then puts).  Repaired = FALSE gives resizeImage as found  *)
-(* (equal scale factors skip the scaling).                                  *)
+(* (equal scale factors skip the scaling; a scaled size may be 0 pixels).   *)
 EXTENDS Integers, Sequences, FiniteSets
 
 ICeil(a, b) == (a + b - 1) \div b
@@ -18,9 +18,12 @@ IResize(iw, ih, w, h, cw, ch, repaired) ==
   IN IF columns <= w /\ lines <= h THEN <<iw, ih>>
      ELSE \* sfX = w/columns, sfY = h/lines: compare w*lines with h*columns
           IF w * lines = h * columns /\ ~repaired THEN <<iw, ih>>
-          ELSE IF w * lines <= h * columns
-               THEN <<(w * iw) \div columns, (w * ih) \div columns>>
-               ELSE <<(h * iw) \div lines, (h * ih) \div lines>>
+          ELSE LET px == IF w * lines <= h * columns
+                         THEN <<(w * iw) \div columns, (w * ih) \div columns>>
+                         ELSE <<(h * iw) \div lines, (h * ih) \div lines>>
+                   AtLeast1(a) == IF a < 1 THEN 1 ELSE a
+               \* proposed repair c20-6: a scaled image keeps at least one pixel each way
+               IN IF repaired THEN <<AtLeast1(px[1]), AtLeast1(px[2])>> ELSE px
 
 (* Resize + CellSize: the cells of the resized image *)
 ICellSize(iw, ih, w, h, cw, ch, repaired) ==
